@@ -355,6 +355,30 @@ fn with_out(g: impl FnOnce(*mut Buffer) -> bool) -> FfiRes {
     }
 }
 
+/// a call whose single input Buffer struct is also handed in as the output struct (a C caller
+/// overwriting its argument in place)
+fn with_out_in_place(input: &[u8], g: impl FnOnce(*const Buffer, *mut Buffer) -> bool) -> FfiRes {
+    let mut io = Buffer { ptr: input.as_ptr(), len: input.len() };
+    let p = &mut io as *mut Buffer;
+    let flag = g(p as *const Buffer, p);
+    let untouched = io.ptr == input.as_ptr() && io.len == input.len();
+    if flag {
+        if untouched && !input.is_empty() {
+            // still designating the input: the output was not written
+            return FfiRes { flag, out: Out::Bytes(b"<output buffer not written (in-place call)>".to_vec()), untouched };
+        }
+        let bytes = if io.len == 0 { vec![] } else { unsafe { std::slice::from_raw_parts(io.ptr, io.len) }.to_vec() };
+        FfiRes { flag, out: Out::Bytes(bytes), untouched }
+    } else {
+        FfiRes { flag, out: Out::Unit, untouched }
+    }
+}
+
+thread_local! {
+    /// whether the next eligible call is made in place (set per step by the interpreter)
+    static IN_PLACE: std::cell::Cell<bool> = const { std::cell::Cell::new(false) };
+}
+
 fn with_bool(g: impl Fn(*mut bool) -> bool) -> FfiRes {
     let mut v = false;
     let flag = g(&mut v as *mut bool);
@@ -559,16 +583,23 @@ fn ffi_call(ctx: *mut RLN, c: &Call, x: &Args) -> FfiRes {
         Call::GetMetadata => with_out(|o| f::get_metadata(ctx, o)),
         Call::KeyGen => with_out(|o| f::key_gen(ctx, o)),
         Call::ExtendedKeyGen => with_out(|o| f::extended_key_gen(ctx, o)),
+        Call::SeededKeyGen(_) if IN_PLACE.with(|c| c.get()) => with_out_in_place(&x.a, |i, o| f::seeded_key_gen(ctx, i, o)),
         Call::SeededKeyGen(_) => with_out(|o| f::seeded_key_gen(ctx, pa, o)),
+        Call::SeededExtendedKeyGen(_) if IN_PLACE.with(|c| c.get()) => with_out_in_place(&x.a, |i, o| f::seeded_extended_key_gen(ctx, i, o)),
         Call::SeededExtendedKeyGen(_) => with_out(|o| f::seeded_extended_key_gen(ctx, pa, o)),
+        Call::Hash(_) if IN_PLACE.with(|c| c.get()) => with_out_in_place(&x.a, |i, o| f::hash(i, o)),
         Call::Hash(_) => with_out(|o| f::hash(pa, o)),
+        Call::PoseidonHash(_) if IN_PLACE.with(|c| c.get()) => with_out_in_place(&x.a, |i, o| f::poseidon_hash(i, o)),
         Call::PoseidonHash(_) => with_out(|o| f::poseidon_hash(pa, o)),
         Call::Verify(_) => with_bool(|v| f::verify(ctx, pa, v)),
         Call::VerifyRlnProof(_) => with_bool(|v| f::verify_rln_proof(ctx, pa, v)),
         Call::VerifyWithRoots(..) => with_bool(|v| f::verify_with_roots(ctx, pa, pb, v)),
         Call::RecoverIdSecret(..) => with_out(|o| f::recover_id_secret(ctx, pa, pb, o)),
+        Call::GenerateRlnProof(..) if IN_PLACE.with(|c| c.get()) => with_out_in_place(&x.a, |i, o| f::generate_rln_proof(ctx, i, o)),
         Call::GenerateRlnProof(..) => with_out(|o| f::generate_rln_proof(ctx, pa, o)),
+        Call::GenerateRlnProofWithWitness(..) if IN_PLACE.with(|c| c.get()) => with_out_in_place(&x.a, |i, o| f::generate_rln_proof_with_witness(ctx, i, o)),
         Call::GenerateRlnProofWithWitness(..) => with_out(|o| f::generate_rln_proof_with_witness(ctx, pa, o)),
+        Call::Prove(_) if IN_PLACE.with(|c| c.get()) => with_out_in_place(&x.a, |i, o| f::prove(ctx, i, o)),
         Call::Prove(_) => with_out(|o| f::prove(ctx, pa, o)),
         Call::New(_) => unreachable!(),
     }
@@ -1004,7 +1035,11 @@ fn run_case(case: &Case, base: &std::path::Path, o: &mut Outcome) {
             vfail!(o, "step {step} before {k}: state read through the FFI differs from the Rust API's: ffi {before_a:?} / rust {before_b:?}");
             return;
         }
+        // one eligible call in three is made in place (the input Buffer struct is also the output struct)
+        let in_place = (case_hash(case).wrapping_add(step as u64 * 0x9E37)) % 3 == 0;
+        IN_PLACE.with(|c| c.set(in_place));
         let ra = ffi_call(pair.a, c, &x);
+        IN_PLACE.with(|c| c.set(false));
         o.evals += 1;
         if let Some(msg) = PREV_OUT_BROKEN.with(|b| b.borrow_mut().take()) {
             vfail!(o, "step {step} {k}: {msg}");
@@ -1240,7 +1275,7 @@ impl Property for C11 {
         "C11"
     }
     fn rule(&self) -> String {
-        "histories of up to 16 calls over the whole extern \"C\" surface (tree mutators incl. atomic / sequential batches and batch initialisation, getters, metadata, flush, set_tree, new / new_with_params incl. non-temporary trees at a location per surface, refused configurations, and drop + re-construction with the same configuration, key generation seeded and unseeded, hash, poseidon_hash, verify / verify_rln_proof / verify_with_roots / recover_id_secret on golden, mutated, truncated and random messages, and — at depth 20 — set_leaf + generate_rln_proof / generate_rln_proof_with_witness / prove) with valid and malformed buffers; instance A only through rln::ffi, instance B only through rln::public::RLN, same arguments. \
+        "histories of up to 16 calls over the whole extern \"C\" surface (tree mutators incl. atomic / sequential batches and batch initialisation, getters, metadata, flush, set_tree, new / new_with_params incl. non-temporary trees at a location per surface, refused configurations, and drop + re-construction with the same configuration, key generation seeded and unseeded, hash, poseidon_hash, verify / verify_rln_proof / verify_with_roots / recover_id_secret on golden, mutated, truncated and random messages, and — at depth 20 — set_leaf + generate_rln_proof / generate_rln_proof_with_witness / prove) with valid and malformed buffers (a third of the calls with one input and one output buffer are made in place: the same Buffer struct serves as both); instance A only through rln::ffi, instance B only through rln::public::RLN, same arguments. \
          Per call: flag == is_ok; output bytes equal (randomised outputs: same length, same public values, cross-verified); failed call leaves out-parameters untouched; an output buffer handed out earlier still reads the same after later calls; afterwards root, leaf count, probed leaves, metadata and a membership proof read through the FFI equal those read through the Rust API. Calls for which the Rust API panics end the history and are counted under excluded_known (outside the quantifier). \
          non-trivial = history with a failing call followed by a succeeding one, or a sequential batch on a tree with leaves_set > 0; distinct by case content".into()
     }
